@@ -14,12 +14,16 @@ RULESETS = [
     (["A", "B", "C"], ["k", "q"],
      [("assignment", {"equation": "A = q + t"}, "dt"), ("assignment", {"equation": "B = A*volume"}, "repeated"),
       ("assignment", {"equation": "_q = B - 1"}, "start")]),
+    (["A", "B", "C"], ["k", "q"],
+     [("additive", {"equation": "C = A + B"}, None), ("ode", {"equation": "k*C", "target": "A"}, None)]),
 ]
 
 
 def _oracle(rules, sp, pa, t, dt, rs, V):
     sp, pa = dict(sp), dict(pa)
     for typ, d, freq in rules:
+        if freq is None:
+            freq = "dt" if typ == "ode" else "repeated"
         fires = freq in ("repeated", "repeat") or (freq == "dt" and rs) or (freq == "start" and t == 0)
         env = dict(sp)
         env.update(pa)
@@ -160,7 +164,7 @@ def replay(spec):
             from bioscrape.lineage import LineageModel as Cls
         else:
             Cls = Model
-        M = Cls(species=species, parameters=list(pa.items()), rules=[(a, dict(b), c) for a, b, c in rules], initial_condition_dict=sp)
+        M = Cls(species=species, parameters=list(pa.items()), rules=[(a, dict(b), c) if c is not None else (a, dict(b)) for a, b, c in rules], initial_condition_dict=sp)
         for _ in range(spec.get("n_init", 1) - 1):
             M.py_initialize()
         itf = ModelCSimInterface(M)
